@@ -136,7 +136,7 @@ def rule_rebuild(idx: ProgramIndex, rep: Report, rule: str = "C02.R", prop: str 
                 if kind == "explicit" and fn.cls is not c:
                     continue  # builds the named class, whatever the receiver: not a rebuild of c
                 seen_sites += 1
-                site = f"{fn.cls.name}.{mname}"
+                site = f"{fn.cls.name}.{_canonical_hook_name(idx, mname)}"
                 where = f"{c.name} via {site}" if fn.cls is not c else site
                 has_star = any(isinstance(a, ast.Starred) for a in call.args)
                 npos = sum(1 for a in call.args if not isinstance(a, ast.Starred))
@@ -371,10 +371,48 @@ LAYERED_HOOKS = {
 }
 
 
+def derive_layered_hooks(idx: ProgramIndex) -> Dict[str, str]:
+    """canonical hook name -> the name it has in this tree.  The hook is the private method the public wrapper of the operator
+    base class calls on ``self`` inside its ``torch.is_tensor(<operand>)`` branch (where the precondition has been established);
+    the pinned name is used when the derivation does not single out exactly one method."""
+    out: Dict[str, str] = {}
+    base = idx.operator_base()
+    for hook, (wrappers, _pre) in LAYERED_HOOKS.items():
+        found: Set[str] = set()
+        for w in wrappers:
+            fn = base.methods.get(w)
+            if fn is None:
+                continue
+            for br in walk_body(fn):
+                if isinstance(br, ast.If) and isinstance(br.test, ast.Call) and dotted(br.test.func) == "torch.is_tensor":
+                    for st in br.body:
+                        for x in ast.walk(st):
+                            if isinstance(x, ast.Call) and isinstance(x.func, ast.Attribute) and isinstance(x.func.value, ast.Name) \
+                                    and x.func.value.id == "self" and x.func.attr.startswith("_") and not x.func.attr.startswith("__") \
+                                    and x.func.attr in base.methods:
+                                found.add(x.func.attr)
+        out[hook] = next(iter(found)) if len(found) == 1 else hook
+    return out
+
+
+def _canonical_hook_name(idx: ProgramIndex, mname: str) -> str:
+    """A rewrite hook is reported under its canonical (pinned) name, so that a finding about it is identified by the hook's role
+    and not by the current spelling of a private method."""
+    cache = idx.__dict__.setdefault("_c02_hooks", None) or derive_layered_hooks(idx)
+    idx.__dict__["_c02_hooks"] = cache
+    for canon, cur in cache.items():
+        if mname == cur:
+            return canon
+    return mname
+
+
 def rule_hook_layering(idx: ProgramIndex, rep: Report):
     """Who may call a private hook whose precondition is established by its public wrapper."""
     rep.rule("C02.H", "private rewrite hooks are reached only through the public method that checks their precondition", floor=8)
-    for hook, (wrappers, pre) in LAYERED_HOOKS.items():
+    current = derive_layered_hooks(idx)
+    rep.analysed["layered_hooks"] = current
+    for hook_, (wrappers, pre) in LAYERED_HOOKS.items():
+        hook = current[hook_]
         n = 0
         for fn in idx.functions:
             if fn.cls is None:
